@@ -289,6 +289,21 @@ func (w *World) Note(format string, a ...interface{}) {
 	w.mu.Unlock()
 }
 
+// CountersSnapshot copies the fault and probe counters under the lock (tasks of a run that already failed may still be
+// counting while the run is being recorded).
+func (w *World) CountersSnapshot() (faults, probes map[string]int) {
+	w.mu.Lock()
+	defer w.mu.Unlock()
+	faults, probes = map[string]int{}, map[string]int{}
+	for k, v := range w.Stats.Faults {
+		faults[k] = v
+	}
+	for k, v := range w.Stats.Probes {
+		probes[k] = v
+	}
+	return
+}
+
 // Probe counts a "this rare condition was reached" event.
 func (w *World) Probe(name string) {
 	w.mu.Lock()
